@@ -2,6 +2,7 @@ package simrt
 
 import (
 	"reflect"
+	goruntime "runtime"
 	"sync/atomic"
 	"unsafe"
 )
@@ -86,6 +87,14 @@ type pendSend struct {
 	t     *Task
 	taken bool
 	retry bool
+	grp   *selGroup // the send is one case of a blocking select
+	idx   int       // its case index
+}
+
+// selGroup: the pending sends of one blocking select; at most one fires.
+type selGroup struct {
+	fired bool
+	idx   int
 }
 
 // Send sends v on ch. Inside a simulation a send that would block waits in the
@@ -134,11 +143,35 @@ func (s *Sim) send(c, v reflect.Value) {
 //go:norace
 func (s *Sim) hasPend(ch uintptr) bool {
 	for _, p := range s.pend {
-		if p.ch == ch {
+		if p.ch == ch && (p.grp == nil || !p.grp.fired) {
 			return true
 		}
 	}
 	return false
+}
+
+// dropPend withdraws pending sends (of a select that has been decided).
+//
+//go:norace
+func (s *Sim) dropPend(g *selGroup) {
+	k := 0
+	for _, p := range s.pend {
+		if p.grp != g {
+			s.pend[k] = p
+			k++
+		}
+	}
+	for i := k; i < len(s.pend); i++ {
+		s.pend[i] = nil
+	}
+	s.pend = s.pend[:k]
+}
+
+func (p *pendSend) syncAddr() unsafe.Pointer {
+	if p.grp != nil {
+		return unsafe.Pointer(p.grp)
+	}
+	return unsafe.Pointer(p)
 }
 
 // takePend removes and returns the oldest pending send on ch.
@@ -146,7 +179,10 @@ func (s *Sim) hasPend(ch uintptr) bool {
 //go:norace
 func (s *Sim) takePend(ch uintptr) *pendSend {
 	for i, p := range s.pend {
-		if p.ch == ch {
+		if p.ch == ch && (p.grp == nil || !p.grp.fired) {
+			if p.grp != nil {
+				p.grp.fired, p.grp.idx = true, p.idx
+			}
 			copy(s.pend[i:], s.pend[i+1:])
 			s.pend[len(s.pend)-1] = nil // no stale reference to the value in the backing array
 			s.pend = s.pend[:len(s.pend)-1]
@@ -158,7 +194,7 @@ func (s *Sim) takePend(ch uintptr) *pendSend {
 
 //go:norace
 func (s *Sim) wakeSender(p *pendSend) {
-	if p.t.state == stBlocked && p.t.bk == bkSend {
+	if p.t.state == stBlocked && (p.t.bk == bkSend || (p.grp != nil && p.t.bk == bkSelect)) {
 		p.t.state = stRunnable
 		p.t.bk = bkNone
 	}
@@ -176,13 +212,18 @@ func (s *Sim) tryRecvPend(c reflect.Value) (reflect.Value, bool) {
 	v, ok := c.TryRecv()
 	if ok {
 		if p := s.takePend(c.Pointer()); p != nil {
-			raceAcquire(unsafe.Pointer(p))
+			raceAcquire(p.syncAddr())
 			if c.TrySend(p.v) {
 				p.taken = true
+			} else if p.grp != nil {
+				// a select's send case that could not move into the buffer
+				// after all: let the select try again
+				p.grp.fired = false
+				p.retry = true
 			} else {
 				p.retry = true
 			}
-			raceRelease(unsafe.Pointer(p))
+			raceRelease(p.syncAddr())
 			s.wakeSender(p)
 		}
 		return v, true
@@ -191,12 +232,132 @@ func (s *Sim) tryRecvPend(c reflect.Value) (reflect.Value, bool) {
 		return v, false // closed
 	}
 	if p := s.takePend(c.Pointer()); p != nil {
-		raceAcquire(unsafe.Pointer(p))
+		raceAcquire(p.syncAddr())
 		pv := p.v
 		p.taken = true
-		raceRelease(unsafe.Pointer(p))
+		raceRelease(p.syncAddr())
 		s.wakeSender(p)
 		return pv, true
 	}
 	return v, false
+}
+
+// ---------------------------------------------------------------------------
+// General select (rewrite rule 9): receive cases with or without assignment,
+// send cases, default.
+
+// SelCase is one communication clause.
+type SelCase struct {
+	send bool
+	ch   reflect.Value
+	v    reflect.Value
+}
+
+// RecvCase: `case <-ch`, `case v := <-ch`, `case v, ok = <-ch`.
+func RecvCase(ch interface{}) SelCase { return SelCase{ch: reflect.ValueOf(ch)} }
+
+// SendCase: `case ch <- v`.
+func SendCase[C ~chan T | ~chan<- T, T any](ch C, v T) SelCase {
+	return SelCase{send: true, ch: reflect.ValueOf(ch), v: reflect.ValueOf(&v).Elem()}
+}
+
+// As gives the received value its static type (the zero value for a closed channel).
+func As[C ~chan T | ~<-chan T, T any](ch C, v interface{}) T {
+	if v == nil {
+		var zero T
+		return zero
+	}
+	return v.(T)
+}
+
+// Idx returns i (it also uses the other two results of SelectX, which a
+// clause list without assignments would leave unused).
+func Idx(i int, v interface{}, ok bool) int { return i }
+
+// SelectX executes a select statement: the index of the chosen case (-1: the
+// default clause), the received value and the comma-ok flag.
+func SelectX(hasDefault bool, cases ...SelCase) (int, interface{}, bool) {
+	s := cur
+	if s == nil || !s.running || s.killed || !s.onTaskGoroutine() {
+		if s != nil && s.killed && s.onTaskGoroutine() {
+			goruntime.Goexit()
+		}
+		rc := make([]reflect.SelectCase, 0, len(cases)+1)
+		for _, c := range cases {
+			if c.send {
+				rc = append(rc, reflect.SelectCase{Dir: reflect.SelectSend, Chan: c.ch, Send: c.v})
+			} else {
+				rc = append(rc, reflect.SelectCase{Dir: reflect.SelectRecv, Chan: c.ch})
+			}
+		}
+		if hasDefault {
+			rc = append(rc, reflect.SelectCase{Dir: reflect.SelectDefault})
+		}
+		atomic.AddInt32(&chanEvents, 1)
+		i, v, ok := reflect.Select(rc)
+		if hasDefault && i == len(cases) {
+			return -1, nil, false
+		}
+		if cases[i].send || !ok {
+			return i, nil, false
+		}
+		return i, v.Interface(), true
+	}
+	return s.selx(hasDefault, cases)
+}
+
+//go:norace
+func (s *Sim) selx(hasDefault bool, cases []SelCase) (int, interface{}, bool) {
+	t := s.cur
+	s.step(OpSelect, 0, false)
+	for {
+		for i, c := range cases {
+			if !c.ch.IsValid() || c.ch.IsNil() {
+				continue // a nil channel is never ready
+			}
+			if c.send {
+				if !s.hasPend(c.ch.Pointer()) && c.ch.TrySend(c.v) {
+					s.pollSel = true
+					s.WriteEpoch++
+					return i, nil, false
+				}
+				continue
+			}
+			v, ok := s.tryRecvPend(c.ch)
+			if ok {
+				return i, v.Interface(), true
+			}
+			if v.IsValid() {
+				return i, nil, false // closed
+			}
+		}
+		if hasDefault {
+			return -1, nil, false
+		}
+		// block: register the send cases as pending, wait for a receive case
+		// to become ready or for a receiver to take one of the sends
+		g := &selGroup{}
+		t.selChans = t.selChans[:0]
+		for i, c := range cases {
+			if !c.ch.IsValid() || c.ch.IsNil() {
+				continue
+			}
+			if c.send {
+				p := &pendSend{ch: c.ch.Pointer(), v: c.v, t: t, grp: g, idx: i}
+				s.pend = append(s.pend, p)
+				raceRelease(unsafe.Pointer(g))
+				s.pollSel = true
+			} else {
+				t.selChans = append(t.selChans, c.ch)
+			}
+		}
+		t.selPeekOnly = true
+		s.block(t, bkSelect, 0)
+		t.selPeekOnly = false
+		s.dropPend(g)
+		if g.fired {
+			raceAcquire(unsafe.Pointer(g))
+			return g.idx, nil, false
+		}
+	}
 }
